@@ -109,6 +109,26 @@ pub fn kahan_prog<F: FElem>(toks: &[String]) -> String {
                 }
                 i += 5;
             }
+            "H" => {
+                // alternate on ONE long-lived register: a value by `+= x`, then a one-element register by `+= reg`
+                let id: u64 = toks[i + 1].parse().unwrap();
+                let seed: u64 = toks[i + 2].parse().unwrap();
+                let param = f64::from_bits(u64::from_str_radix(&toks[i + 3][1..], 16).unwrap());
+                let n: u64 = toks[i + 4].parse().unwrap();
+                let mut g = SeqGen::new(id, seed, param);
+                let top = st.last_mut().unwrap();
+                for j in 0..n {
+                    let x = F::from64(g.next());
+                    if j % 2 == 0 {
+                        *top += x;
+                    } else {
+                        let mut r = KahanSum::<F>::default();
+                        r += x;
+                        *top += r;
+                    }
+                }
+                i += 5;
+            }
             "d" => {
                 let c = *st.last().unwrap();
                 st.push(c);
@@ -346,6 +366,15 @@ pub fn c08(out: &mut Vec<String>, rng: &mut Rng, tier: &str) {
         } else {
             out.push(format!("C08 kahan f {} => {}", toks.join(" "), kahan_prog::<f64>(&toks)));
         }
+    }
+    // one register fed alternately by value and by (one-element) register
+    for (n, id, param) in [(20_000u64, 1u64, 1.1f64), (1_000_000, 1, 1.1), (1_000_000, 2, 1.0), (200_000, 0, 0.1)] {
+        if tier != "thorough" && n > 200_000 && id == 2 {
+            continue;
+        }
+        let toks: Vec<String> = vec!["E".into(), "H".into(), format!("{}", id), format!("{}", rng.next() >> 1), param.enc(), format!("{}", n), "q".into()];
+        out.push(format!("C08 kahan g {} => {}", toks.join(" "), kahan_prog::<f32>(&toks)));
+        out.push(format!("C08 kahan f {} => {}", toks.join(" "), kahan_prog::<f64>(&toks)));
     }
     // the statistics built on the registers: `Arithmetic` histories (sum and sum of squares),
     // including a long-lived state extended in many small batches
@@ -862,6 +891,31 @@ pub fn c09(out: &mut Vec<String>, rng: &mut Rng, tier: &str) {
                 _ => { let t = random_history::<f64>(kind, rng, max_ops); let r = run_prog::<quantile::Stats>(conf, &t); (t, r, "f") }
             };
             out.push(format!("C09 prog {} {} {} {} => {}", tag, kind, enc_conf(&conf), toks.join(" "), res));
+        }
+    }
+    // long chunks through extend / from_iter (more than a thousand observations per call)
+    for (i, n) in [1024usize, 1025, 2050, 3000, 5000].iter().enumerate() {
+        for kind in ["arith", "geo", "unpaired"] {
+            let conf = crate::gen::rand_conf(rng);
+            let mut toks: Vec<String> = Vec::new();
+            let op = if i % 2 == 0 { "f" } else { "x" };
+            if op == "x" {
+                toks.push("E".into());
+            }
+            toks.push(op.into());
+            toks.push(format!("{}", n));
+            for _ in 0..*n {
+                toks.extend(obs_tokens::<f64>(kind, rng, 1.0));
+            }
+            toks.push("a".into());
+            toks.extend(obs_tokens::<f64>(kind, rng, 1.0));
+            toks.push("q".into());
+            let res = match kind {
+                "arith" => run_prog::<Arithmetic<f64>>(conf, &toks),
+                "geo" => run_prog::<Geometric<f64>>(conf, &toks),
+                _ => run_prog::<Unpaired<f64>>(conf, &toks),
+            };
+            out.push(format!("C09 prog f {} {} {} => {}", kind, enc_conf(&conf), toks.join(" "), res));
         }
     }
     // parallel reduction (rayon) of chunked data over 1..16 threads: any schedule must give the batch result
